@@ -473,6 +473,9 @@ class Gen:
                 if n and w < 64 and r.random() < 0.15 and float(hi) + 1.0 == rb(hi) and hi < 2 ** 32:
                     vals = [float(r.randint(max(lo, -100), min(hi, 100))) for _ in vals]
                     vals[r.randrange(n)] = float(hi) + 1.0          # out of range, but == the bound after rounding it to the source dtype
+                if any(v != int(v) for v in vals if v == v and abs(v) != float('inf')):
+                    tags.add('nonintegral')       # truncated before the NPSCALAR fix, rejected after it
+                    exp = None if exp == 'accept' else exp
                 if any(not lo <= v <= hi for v in vals):
                     tags.add('arrwrap')
                     exp = 'reject'
